@@ -370,7 +370,7 @@ register("C04", streams=[Q("filter", pred="has", apis=["find_matches"], src=Fals
                          Q("filter", pred="below", apis=["find_matches"], src=False, share=1)],
          observables=["fncalls", "results_exc"],
          rule="has/has_not/has_all/has_any trees (depth<=3) over relative paths incl. wildcards, recursion, parent steps, nested filters; six operators; constants of every JSON kind; conversion chains of length 0-3 that raise on part of the data; compared: results, conversion call order, exception chain")
-register("C05", streams=[Q("all", apis=ALL_APIS, src=None)],
+register("C05", streams=[Q("all", apis=ALL_APIS, src=None, share=3), Q("parent", apis=ALL_APIS, src=True, share=1)],
          observables=["results_exc"],
          rule="all four read functions on the same (path, source) space, source = document or k-th match of another path; default in {none, constant incl. falsy and {}, callable}; must_match in {True, False}")
 register("C07", streams=[Q("all", apis=["find_matches", "find"], src=None, nexts="partial", untraced=0.5, share=4),
